@@ -423,6 +423,44 @@ def run_shard(shard):
                 rec.violation("invalid_argument_accepted", f"{nm} was accepted without an error", {"object": "invalid:" + nm, "origin": "invalid"}, ("init", 0.0), {})
             except Exception:  # noqa: BLE001
                 rec.count("invalid_arguments_rejected")
+        # the same value constraints when the constructor runs inside a compiled function (a model built inside a jitted loss /
+        # log_prob): the invalid value is a traced argument, so a check whose result is discarded is silently compiled away
+        mix = lambda w: D.VmapMixture(eqx.filter_vmap(D.Normal)(jnp.zeros(3), jnp.ones(3)), w)  # noqa: E731
+        traced_calls = {
+            "Affine(scale=0)": (lambda s: B.Affine(A(0.0), s), (A(0.0),)),
+            "Affine(scale has one zero)": (lambda s: B.Affine(A(np.zeros(3)), s), (A([1.0, 0.0, 2.0]),)),
+            "Scale(-1)": (lambda s: B.Scale(s), (A([-1.0, 1.0]),)),
+            "TriangularAffine(zero diagonal)": (lambda m: B.TriangularAffine(A(np.zeros(2)), m), (A([[1.0, 0.0], [1.0, 0.0]]),)),
+            "StudentT(df=0)": (lambda d: D.StudentT(d), (A(0.0),)), "StudentT(df=-1)": (lambda d: D.StudentT(d), (A([2.0, -1.0]),)),
+            "Uniform(max=min)": (lambda a, b: D.Uniform(a, b), (A(1.0), A(1.0))),
+            "Uniform(max<min)": (lambda a, b: D.Uniform(a, b), (A([0.0, 1.0]), A([1.0, 0.5]))),
+            "VmapMixture(weight 0)": (mix, (A([1.0, 0.0, 2.0]),)), "VmapMixture(weight <0)": (mix, (A([1.0, -tiny, 2.0]),)),
+            "VmapMixture(all weights <0)": (mix, (A([-1.0, -1.0, -2.0]),)),
+            "Exponential(rate<0)": (lambda r: D.Exponential(r), (A(-1.0),)), "Exponential(rate=0)": (lambda r: D.Exponential(r), (A(0.0),)),
+            "Normal(scale=0)": (lambda s: D.Normal(A(0.0), s), (A(0.0),)), "Normal(scale<0)": (lambda s: D.Normal(A(0.0), s), (A(-2.0),)),
+            "LogNormal(scale<0)": (lambda s: D.LogNormal(A(0.0), s), (A(-2.0),)), "Gumbel(scale=0)": (lambda s: D.Gumbel(A(0.0), s), (A(0.0),)),
+            "Cauchy(scale<0)": (lambda s: D.Cauchy(A(0.0), s), (A(-1.0),)), "Laplace(scale=0)": (lambda s: D.Laplace(A(0.0), s), (A(0.0),)),
+            "Logistic(scale<0)": (lambda s: D.Logistic(A(0.0), s), (A(-1.0),)),
+        }
+        for nm, (ctor, vals) in traced_calls.items():
+            for how in ("constructed under filter_jit", "constructed and used inside jax.jit"):
+                rec.evals += 1
+                rec.count("invalid_argument_probes_traced")
+                rec.nontrivial.add(chash("invalid-traced", nm, how))
+                try:
+                    if how.startswith("constructed under"):
+                        out = eqx.filter_jit(ctor)(*vals)
+                    else:
+                        def use(*v, _ctor=ctor):
+                            o = _ctor(*v)
+                            x0 = jnp.zeros(o.shape) + 0.3
+                            return o.log_prob(x0) if hasattr(o, "log_prob") else o.transform(x0)
+                        out = jax.jit(use)(*vals)
+                    jax.block_until_ready(jax.tree_util.tree_leaves(eqx.filter(out, eqx.is_array)))
+                    rec.violation("invalid_argument_accepted.traced", f"{nm} ({how}) was accepted without an error",
+                                  {"object": "invalid:" + nm, "origin": "invalid"}, ("init", 0.0), {})
+                except Exception:  # noqa: BLE001
+                    rec.count("invalid_arguments_rejected_traced")
         # exactly-zero planar weight vector (finite raw values): the layer must stay well defined
         for d in (1, 3):
             pl = _UnconditionalPlanar(A(np.zeros(d)), A(rng.normal(size=d)), A(0.3), 0.2)
@@ -498,6 +536,7 @@ def run_shard(shard):
             out["required"]["constructor_roundtrips"] = rec.counters.get("constructor_roundtrips", 0)
         if shard["shard"] % 4 == 1:
             out["required"]["invalid_arguments_rejected"] = rec.counters.get("invalid_arguments_rejected", 0)
+            out["required"]["invalid_arguments_rejected_traced"] = rec.counters.get("invalid_arguments_rejected_traced", 0)
         if shard.get("histories", 0):
             out["required"]["history_steps_checked"] = rec.counters.get("history_steps_checked", 0)
     return out
